@@ -6464,7 +6464,8 @@ class CodegenCtx:
             else:
                 transition_body.add("// fallthrough to terminate")
         # Otherwise, if this state is targeting an accept state, return DONE instead of OK
-        elif immediate_done:
+        elif immediate_done and not (from_end and leaves_for_elsewhere):
+            # (in end(), where an action may have left for another state, the caller looks at where the machine really is)
             transition_body.add("// immediately return DONE")
             transition_body.add(f"return {self.program_name.upper()}_DONE;")
         # Normally, though, just generate a jump to the next jpto
@@ -6681,7 +6682,8 @@ class CodegenCtx:
         if answers_differently:
             redirected = " || ".join(f"state->state == {x}" for x in answers_differently)
             if final_state in self.dfa.accepting_states:
-                result.add(f"if ({redirected}) return {self.program_name.upper()}_FAIL;")
+                # end-of-input is still what comes next there: that state's own end handling answers (and keeps a FAIL final)
+                result.add(f"if ({redirected}) goto repeatswitch;")
             else:
                 result.add(f"if ({redirected}) return {self.program_name.upper()}_DONE;")
 
